@@ -60,6 +60,15 @@ def parseWPart (s : String) : Option WPart :=
            czf := (← parseHex zf), qps := (← parseList q) }
   | _ => none
 
+/-- a part as the writer holds it *now* (headers after `append_payload` and any later change) -/
+def parseAppended (s : String) : Option Appended :=
+  match s.splitOn "|" with
+  | [h, c, comp, te, z1, zf, q] => do
+    let te ← (match te with | "n" => some TE.none | "b" => some TE.base64 | "q" => some TE.qp | _ => none)
+    pure { headers := (← parseHdrs h), content := (← parseHex c), compressed := parseBool comp, te := te,
+           cz1 := (← parseHex z1), czf := (← parseHex zf), qps := (← parseList q) }
+  | _ => none
+
 def showWErr : WErr → String
   | .runtime => "err-runtime"
   | .assertion => "err-assertion"
@@ -91,6 +100,14 @@ def handle : List String → String
         match writeParts (parseBool form) b as with
         | .error e => showWErr e
         | .ok w => s!"ok {showHex w} size={showOptNat (sizeOf b as)} hdrs={"/".intercalate (as.map (fun a => showHdrs a.headers))}"
+    | _, _ => "bad-op"
+  | "wz" :: b :: form :: parts =>
+    -- size and bytes written as pure functions of the writer's current parts
+    match parseHex b, parts.mapM parseAppended with
+    | some b, some as =>
+      match writeParts (parseBool form) b as with
+      | .error e => showWErr e
+      | .ok w => s!"ok {showHex w} size={showOptNat (sizeOf b as)}"
     | _, _ => "bad-op"
   | ["al", chunk, size, atEnd] =>
     match parseHex chunk, size.toNat? with
